@@ -514,7 +514,6 @@ Qed.
 
 Section WithMatching.
 Variable mf : string -> string -> bool.
-Variable dmf : string -> string -> bool.
 
 (* matched / matchedBy hold exactly the registered names related by the matching function *)
 Definition WFm (s : rmgr) : Prop :=
@@ -1229,6 +1228,8 @@ Proof.
   intros HF. apply (proj1 (proj1 (rrun_refines n EmptyString ops (new_rm false) [] NoMF_new (links_equiv_refl _) HF))).
 Qed.
 
+Section DomNoMF.
+Variable dmf : string -> string -> bool.
 (* ================= DomainManager without matching functions ================= *)
 Record DInv (dm : dmgr) : Prop := mkDInv {
   di_mf : d_mf dm = false;
@@ -1425,6 +1426,8 @@ Proof.
   destruct (drun_refines n ops new_dm [] DInv_new (links_equiv_refl _) HF) as [I LE].
   apply (dstep_refines n _ _ op I LE Hop).
 Qed.
+
+End DomNoMF.
 
 (* ================= (c) managers WITH a matching function ================= *)
 (* closed forms of addMatch / removeMatch on the heap *)
@@ -2132,6 +2135,8 @@ Qed.
 
 
 
+Section DomAll.
+Variable dmf : string -> string -> bool.
 (* ================= DomainManager over ALL histories (matching functions included) =================
    every per-domain manager stays well-formed and carries the role matching flag of its owner *)
 
@@ -2288,6 +2293,7 @@ Theorem drun_DWF n ops : forall dm, DWF dm -> DWF (drun mf dmf n dm ops).
 Proof.
   induction ops as [|op t IH]; intros dm D; cbn [drun fold_left]; [exact D|]. apply IH. apply dstep_DWF. exact D.
 Qed.
+End DomAll.
 End WithMatching.
 
 (* ================= concrete witnesses (computed) ================= *)
